@@ -1,0 +1,136 @@
+//go:build verif
+
+package ecs
+
+// Contracts for mask256.go and mask64.go: every method against the set-of-bits view.
+
+//@ spec func m256has(m bitMask256, bit uint8) bool := m.bits[bit>>6] & (uint64(1) << (bit & 63)) != 0
+//@ spec func m64has(m bitMask64, bit uint8) bool := bit < 64 && (m.bits >> bit) & 1 == 1
+
+// ---- 256 bit -------------------------------------------------------------------------------
+
+//@ func (*bitMask256).Get
+//@   serves C03 C08 C18 C20
+//@   ensures value: result == m256has(*b, bit)
+//@   modifies nothing
+
+//@ func (*bitMask256).Set
+//@   serves C03 C08 C18 C20
+//@   ensures set: forall i uint8 :: m256has(*b, i) == (old(m256has(*b, i)) || i == bit)
+//@   modifies b.bits
+
+//@ func (*bitMask256).Clear
+//@   serves C03 C08 C18 C20
+//@   ensures cleared: forall i uint8 :: m256has(*b, i) == (old(m256has(*b, i)) && i != bit)
+//@   modifies b.bits
+
+//@ func (*bitMask256).Not
+//@   serves C03 C08 C20
+//@   ensures complement: forall i uint8 :: m256has(result, i) == !m256has(*b, i)
+//@   modifies nothing
+
+//@ func (*bitMask256).OrI
+//@   requires other != nil
+//@   serves C08 C20
+//@   ensures union: forall i uint8 :: m256has(*b, i) == (old(m256has(*b, i)) || old(m256has(*other, i)))
+//@   modifies b.bits
+
+//@ func (*bitMask256).IsZero
+//@   serves C03 C08 C20
+//@   ensures empty: result == (forall i uint8 :: !m256has(*b, i))
+//@   modifies nothing
+
+//@ func (*bitMask256).Reset
+//@   serves C08 C16 C20
+//@   ensures empty: forall i uint8 :: !m256has(*b, i)
+//@   modifies b.bits
+
+//@ func (*bitMask256).Contains
+//@   requires other != nil
+//@   serves C03 C08 C20
+//@   ensures subset: result == (forall i uint8 :: m256has(*other, i) ==> m256has(*b, i))
+//@   modifies nothing
+
+//@ func (*bitMask256).ContainsAny
+//@   requires other != nil
+//@   serves C03 C08 C20
+//@   ensures intersects: result == (exists i uint8 :: m256has(*b, i) && m256has(*other, i))
+//@   modifies nothing
+
+//@ func (*bitMask256).Equals
+//@   requires other != nil
+//@   serves C03 C20
+//@   ensures equal: result == (forall i uint8 :: m256has(*b, i) == m256has(*other, i))
+//@   ensures same: result == (*b == *other)
+//@   modifies nothing
+
+//@ func (*bitMask256).TotalBitsSet
+//@   serves C18 C19 C20
+//@   ensures range: 0 <= result && result <= 256
+//@   ensures zero: (result == 0) == (forall i uint8 :: !m256has(*b, i))
+//@   modifies nothing
+
+// ---- 64 bit --------------------------------------------------------------------------------
+
+//@ func (*bitMask64).Get
+//@   requires bit < 64
+//@   serves C07 C20
+//@   ensures value: result == m64has(*b, bit)
+//@   modifies nothing
+
+//@ func (*bitMask64).Set
+//@   requires bit < 64
+//@   serves C07 C20
+//@   ensures set: forall i uint8 :: m64has(*b, i) == (old(m64has(*b, i)) || (i == bit && bit < 64))
+//@   modifies b.bits
+
+//@ func (*bitMask64).Clear
+//@   requires bit < 64
+//@   serves C07 C20
+//@   ensures cleared: forall i uint8 :: m64has(*b, i) == (old(m64has(*b, i)) && i != bit)
+//@   modifies b.bits
+
+//@ func (*bitMask64).Not
+//@   serves C20
+//@   ensures complement: forall i uint8 :: i < 64 ==> m64has(result, i) == !m64has(*b, i)
+//@   modifies nothing
+
+//@ func (*bitMask64).OrI
+//@   requires other != nil
+//@   serves C20
+//@   ensures union: forall i uint8 :: m64has(*b, i) == (old(m64has(*b, i)) || old(m64has(*other, i)))
+//@   modifies b.bits
+
+//@ func (*bitMask64).IsZero
+//@   serves C07 C20
+//@   ensures empty: result == (forall i uint8 :: !m64has(*b, i))
+//@   modifies nothing
+
+//@ func (*bitMask64).Reset
+//@   serves C20
+//@   ensures empty: forall i uint8 :: !m64has(*b, i)
+//@   modifies b.bits
+
+//@ func (*bitMask64).Contains
+//@   requires other != nil
+//@   serves C20
+//@   ensures subset: result == (forall i uint8 :: m64has(*other, i) ==> m64has(*b, i))
+//@   modifies nothing
+
+//@ func (*bitMask64).ContainsAny
+//@   requires other != nil
+//@   serves C20
+//@   ensures intersects: result == (exists i uint8 :: m64has(*b, i) && m64has(*other, i))
+//@   modifies nothing
+
+//@ func (*bitMask64).Equals
+//@   requires other != nil
+//@   serves C20
+//@   ensures equal: result == (forall i uint8 :: m64has(*b, i) == m64has(*other, i))
+//@   modifies nothing
+
+//@ func (*bitMask64).TotalBitsSet
+//@   serves C19 C20
+//@   ensures range: 0 <= result && result <= 64
+//@   ensures zero: (result == 0) == (forall i uint8 :: !m64has(*b, i))
+//@   modifies nothing
